@@ -123,9 +123,13 @@ func gobEncodeItem(it Item) ([]byte, error) {
 	if IsObject(it) {
 		switch it.GetType() {
 		case IRIType:
-			var bytes []byte
-			bytes, err = it.(IRI).GobEncode()
-			b.Write(bytes)
+			// only an IRI value is encoded as one: an object that merely bears the name "IRI" as
+			// its type has no such form
+			if i, ok := it.(IRI); ok {
+				var bytes []byte
+				bytes, err = i.GobEncode()
+				b.Write(bytes)
+			}
 		case "", ObjectType, ArticleType, AudioType, DocumentType, EventType, ImageType, NoteType, PageType, VideoType:
 			err = OnObject(it, func(ob *Object) error {
 				bytes, err := ob.GobEncode()
